@@ -26,10 +26,11 @@ def build():
     hobjs, err = lib._compile_many("clang", cf + ["-fsanitize=address", "-I" + lib.HARNESS, "-Dmain=corr_main",
                                                   "-D__sanitizer_cov_trace_pc_guard=unused_guard", "-D__sanitizer_cov_trace_pc_guard_init=unused_guard_init"], hs, B)
     assert not err, err
-    fz = os.path.join(lib.HARNESS, "fuzz", "fuzz_%s.c" % TARGET)
-    r = lib.run(["clang"] + cf + ["-fsanitize=fuzzer,address", "-I" + lib.HARNESS, fz] + objs + hobjs + ["-lz", "-lpthread", "-o", B + "/fuzz"])
+    fz = os.path.join(lib.HARNESS, "fuzz", "fuzz_%s.c" % ("conn" if TARGET == "connz" else TARGET))
+    zdef = ["-DFUZZ_Z"] if TARGET == "connz" else []
+    r = lib.run(["clang"] + cf + zdef + ["-fsanitize=fuzzer,address", "-I" + lib.HARNESS, fz] + objs + hobjs + ["-lz", "-lpthread", "-o", B + "/fuzz"])
     assert r.returncode == 0, r.stderr[-3000:]
-    r = lib.run(["clang", "-O1", "-DFUZZ_DUMP", "-w"] + lib.CFLAGS_COMMON + ["-I" + lib.HARNESS, fz, "-o", B + "/dump"])
+    r = lib.run(["clang", "-O1", "-DFUZZ_DUMP", "-w"] + zdef + lib.CFLAGS_COMMON + ["-I" + lib.HARNESS, fz, "-o", B + "/dump"])
     assert r.returncode == 0, r.stderr[-3000:]
     print("built", B)
 
@@ -66,9 +67,46 @@ def seed_fn():
     print("seeds:", n)
 
 
+def seed_connz():
+    import zlib, lzma
+    os.makedirs(C, exist_ok=True)
+    rng = random.Random(11)
+    n = 0
+    req = b">>>\nGET /z HTTP/1.1\r\nHost: h\r\n\r\n\n"
+    def gz(d):
+        c = zlib.compressobj(6, zlib.DEFLATED, 31); return c.compress(d) + c.flush()
+    def raw(d):
+        c = zlib.compressobj(6, zlib.DEFLATED, -15); return c.compress(d) + c.flush()
+    pls = [b"", b"a", b"hello world " * 20, bytes(rng.randrange(256) for _ in range(200)), b"\x00" * 30000]
+    encs = [(b"gzip", gz), (b"deflate", raw), (b"deflate", zlib.compress), (b"x-gzip", gz), (b"lzma", lambda d: lzma.compress(d, format=lzma.FORMAT_ALONE, preset=0)),
+            (b"gzip, deflate", lambda d: raw(gz(d))), (b"gzip,gzip", lambda d: gz(gz(d))), (b"gzip", lambda d: b"\x1f\x8b\x08\x08\x00\x00\x00\x00\x00\x03nm\x00" + raw(d))]
+    for ci in range(10):
+        for ce, f in encs:
+            for pl in pls:
+                body = f(pl)
+                if len(body) > 2500:
+                    continue
+                for fr in ("cl", "chunked"):
+                    if fr == "cl":
+                        res = b"HTTP/1.1 200 OK\r\nContent-Encoding: " + ce + b"\r\nContent-Length: %d\r\n\r\n" % len(body) + body
+                    else:
+                        res = b"HTTP/1.1 200 OK\r\nContent-Encoding: " + ce + b"\r\nTransfer-Encoding: chunked\r\n\r\n%x\r\n" % len(body) + body + b"\r\n0\r\n\r\n"
+                    k = rng.randint(1, len(res) - 1)
+                    data = req + b"<<<\n" + res[:k] + b"\n<<<\n" + res[k:] + b"\n"
+                    if n % 7 == ci % 7:
+                        open(os.path.join(C, "z_%d" % n), "wb").write(bytes([ci, 0, 0]) + data)
+                    n += 1
+    open(B + "/dict", "w").write("\n".join('"%s"' % x for x in (
+        "\\x0a>>>\\x0a", "\\x0a<<<\\x0a", "\\x0a===\\x0a", "Content-Encoding: ", "gzip", "deflate", "lzma", "x-gzip", "x-deflate", ", ", "\\x1f\\x8b\\x08", "\\x78\\x9c", "\\x5d\\x00\\x00",
+        "Transfer-Encoding: chunked", "Content-Length: ", "\\x0d\\x0a\\x0d\\x0a", "HTTP/1.1 200 OK\\x0d\\x0a", "0\\x0d\\x0a\\x0d\\x0a")) + "\n")
+    print("seeds:", len(os.listdir(C)))
+
+
 def seed():
     if TARGET == "fn":
         return seed_fn()
+    if TARGET == "connz":
+        return seed_connz()
     os.makedirs(C, exist_ok=True)
     n = 0
     rng = random.Random(7)
@@ -95,7 +133,7 @@ def seed():
 
 def run(seconds):
     os.makedirs(CR, exist_ok=True)
-    cmd = [B + "/fuzz", "-fork=14", "-max_len=%d" % (3000 if TARGET == "conn" else 400), "-timeout=10", "-rss_limit_mb=3000", "-max_total_time=%d" % seconds, "-dict=" + B + "/dict",
+    cmd = [B + "/fuzz", "-fork=14", "-max_len=%d" % (400 if TARGET == "fn" else 3000), "-timeout=10", "-rss_limit_mb=3000", "-max_total_time=%d" % seconds, "-dict=" + B + "/dict",
            "-artifact_prefix=" + CR + "/", "-ignore_crashes=1", "-ignore_timeouts=1", "-ignore_ooms=1", "-print_final_stats=1", C]
     env = dict(os.environ, ASAN_OPTIONS="detect_leaks=1:abort_on_error=0:allocator_may_return_null=1")
     subprocess.run(cmd, env=env, stdout=open("/tmp/fzrun_%s.log" % TARGET, "a"), stderr=subprocess.STDOUT)
@@ -104,7 +142,7 @@ def run(seconds):
 
 def distill(maxn=None):
     shutil.rmtree(M, ignore_errors=True); os.makedirs(M)
-    subprocess.run([B + "/fuzz", "-merge=1", "-max_len=%d" % (3000 if TARGET == "conn" else 400), "-timeout=10", M, C], stdout=open("/tmp/fzmerge.log", "w"), stderr=subprocess.STDOUT)
+    subprocess.run([B + "/fuzz", "-merge=1", "-max_len=%d" % (400 if TARGET == "fn" else 3000), "-timeout=10", M, C], stdout=open("/tmp/fzmerge.log", "w"), stderr=subprocess.STDOUT)
     files = sorted(glob.glob(M + "/*"), key=lambda p: (os.path.getsize(p), p))
     if maxn:
         files = files[:maxn]
